@@ -150,7 +150,7 @@ def specs(r):
     from .. import aiomix
     if r["scn"].get("sliced"):
         return sliced_specs(r)
-    qs = aiomix.probe_specs(r) + aiomix.idle_specs(r)
+    qs = aiomix.probe_specs(r) + aiomix.idle_specs(r) + aiomix.cop_sel_specs(r)
     scn = r["scn"]
     gone_at = {}     # key -> instant after which no start may happen
     for i, (o, ob) in enumerate(zip(scn["ops"], r["obs"])):
